@@ -978,7 +978,12 @@ def compare_cache_rebuild(ctx, cases):
     """tie of Model/CrashCache.persists: the cache files of the stack a command installs before its first effect on
     the records (the rebuild its constructor performs when the user's cache is missing or out of date), in order,
     against the model's persists for autosave off, the flavors the command loads and the declarations the database
-    holds: one complete file per loaded flavor, nothing else"""
+    holds: one complete file per flavor ProductStack.updated holds - every flavor the database has a declaration of
+    (addProduct notes it), loaded or not, then the loaded flavors it has none of - and nothing else.  The order in
+    which the flavors of the database are first met is that of the walk of refreshFromDatabase (os.listdir order of
+    the product directories and version files, which the file system chooses and which a copy of the directory
+    need not share); the model is given the declarations sorted, and the leading run of files - those of the flavors
+    of the database - is compared as a set without repetition, the rest in order"""
     cc = [c for c in cases if c.get("cache") and c.get("_oldview")]
     lines, meta = [], []
     for c in cc:
@@ -994,14 +999,20 @@ def compare_cache_rebuild(ctx, cases):
         rows = sorted((fl, n, v) for fl, l in c["_oldview"].items() if not fl.startswith("_") for n, v, _, _, _ in l)
         lines.append("\t".join(["persists", "0", ",".join(enc(x) for x in fls),
                                 ";".join(",".join(enc(x) for x in r) for r in rows)]))
-        meta.append((c, real))
+        meta.append((c, real, len({r[0] for r in rows})))
     if not lines:
         return
-    for out, (c, real) in zip(ctx.model(lines), meta):
+    for out, (c, real, ndb) in zip(ctx.model(lines), meta):
         ctx.traces_validated += 1
         ctx.bump("start-up-cache-rebuilds-compared-with-the-model")
         model = [common.dec(x.split(":")[0]) for x in out.split(":", 1)[1].split(";") if x]
         if model != real:
+            ctx.bump("start-up-cache-rebuilds-equal-up-to-the-order-the-walk-met-the-flavors-of-the-database")
+        if len(set(model)) > ndb:
+            ctx.bump("start-up-cache-rebuilds-that-wrote-a-loaded-flavor-the-database-holds-nothing-of")
+        if len(set(model) - set(fls)) > 0:
+            ctx.bump("start-up-cache-rebuilds-that-wrote-a-flavor-the-command-did-not-load")
+        if sorted(model[:ndb]) != sorted(real[:ndb]) or model[ndb:] != real[ndb:]:
             ctx.disagree({"history": c["history"], "op": c["op"], "cache": True, "user": c.get("user")},
                          ",".join(model), ",".join(real),
                          where="cache files of the stack installed by the rebuild at the start of the command "
@@ -1204,7 +1215,7 @@ def explore(ctx, cases, flush=True):
             res.append(("ok", cr))
     compare_effect_sequences(ctx, cases)
     compare_cache_helper(ctx, cases)
-    if os.environ.get("VERIF_C08_TIES", "0") == "1":
+    if os.environ.get("VERIF_C08_TIES", "1") == "1":
         compare_cache_rebuild(ctx, cases)
     lines, meta = [], []
     vlines, vmeta = [], []
@@ -1322,7 +1333,7 @@ def explore(ctx, cases, flush=True):
             meta.append((c, k, r))
         else:
             ctx.bump("not-compared-with-model(in-place or repeated write)")
-    if os.environ.get("VERIF_C08_TIES", "0") == "1":
+    if os.environ.get("VERIF_C08_TIES", "1") == "1":
         compare_unwind(ctx, unwinds)
     if vlines:
         outs = ctx.model(vlines)
